@@ -29,7 +29,7 @@ pub fn gen(ctx: &Ctx) -> Vec<Value> {
             _ => r.usize(12),
         };
         // malformed stream: ≈15 % of the cases carry positions that violate the schema
-        let cfg = ValCfg { malformed_permille: if r.chance(3, 20) { 30 } else { 0 } };
+        let cfg = if r.chance(1, 3) { ValCfg::strict() } else { ValCfg::new(if r.chance(3, 20) { 30 } else { 0 }) };
         let rows: Vec<Value> = (0..nrows).map(|_| gen_schema::gen_record(&mut r, &schema, &cfg)).collect();
         out.push(json!({"id": format!("build-{c:06}"), "seed": sub, "schema": schema, "rows": rows}));
     }
@@ -59,7 +59,7 @@ pub fn exec(input: &Value) -> Value {
     });
     let mut case = input.clone();
     let obj = case.as_object_mut().unwrap();
-    obj.insert("aux".into(), gen_schema::float_strings(&input["rows"]));
+    obj.insert("aux".into(), gen_schema::aux_for(&input["schema"], &input["rows"]));
     obj.insert("impl".into(), imp);
     obj.insert("arrow".into(), Value::Array(arrow_check));
     case
